@@ -236,6 +236,7 @@ func (e *Eng) doAlloc(fr *Frame, st *State, in *ssa.Alloc) Val {
 	switch under(et).(type) {
 	case *types.Struct:
 		p := &PtrV{Kind: pStruct, Ref: r, Elem: et, NonNil: true}
+		e.assume(st, tEq(e.rtypeOf(r), e.structTag(et)))
 		e.storePtr(fr, st, p, et, zeroVal(et))
 		return p
 	case *types.Array:
